@@ -1,14 +1,22 @@
 //! C09 — dynamic predicates follow the logical update view.
 //!
-//! Actors: cursors (partially consumed calls of dynamic predicates with bound/unbound first
-//! argument, clause/2, re-entrant retract/1, once/1, \+) and writers (assertz, asserta, retract
-//! once, retractall). One machine resumes choice points LIFO, so an interleaving of cursors and
-//! writers is realised as one conjunction `op1, ..., opn, fail` whose cursor answers are logged
-//! by side effect; database effects survive backtracking, so later operations re-execute
-//! against a changed database — exactly the histories the property quantifies over.
+//! Actors: cursors (partially consumed calls of dynamic predicates with bound, partially bound
+//! and unbound arguments, calls that run through a rule body into a second dynamic predicate,
+//! clause/2, re-entrant retract/1, once/1, \+) and writers (assertz, asserta, assertion of
+//! rules, retract once, retractall, abolish). One machine resumes choice points LIFO, so an
+//! interleaving of cursors and writers is realised as one conjunction `op1, ..., opn, fail`
+//! whose cursor answers are logged by side effect; database effects survive backtracking, so
+//! later operations re-execute against a changed database — exactly the histories the property
+//! quantifies over. `throw` discards every open cursor at once.
+//!
 //! Oracle: a reference interpreter of the op language over an MVCC list model
 //! (clause = (birth, death); a cursor opened at generation g sees birth <= g < death, in list
 //! order). Log and final database contents must equal the model's.
+//!
+//! Fault configuration (separate, `interrupt_at` in the case): an interrupt is injected at the
+//! n-th instruction of the history. The relaxed oracle: no crash; the log is a prefix of the
+//! model's log; the database is one of the states the model passes through at that point of
+//! the log; afterwards fresh calls enumerate exactly that database.
 
 use super::{panic_key, Check, Outcome, Tier};
 use crate::mach::{Ans, Mach};
@@ -26,12 +34,15 @@ impl C09 {
     }
 }
 
-const VALS: &[&str] = &["a", "b", "c", "d"];
+/// ground argument values: atoms, structures with two functors, an integer, a list
+const VALS: &[&str] = &["va", "vb", "vc", "f(va)", "f(vb)", "g(va)", "1", "[va]"];
 
 #[derive(Clone, Debug)]
 struct Clause {
     /// p: [v]; q: [k, v]
     args: Vec<String>,
+    /// p-rules only: `p(v) :- q(pattern)`
+    body: Option<Vec<Option<String>>>,
     birth: u64,
     death: u64,
 }
@@ -42,33 +53,173 @@ struct Model {
     q: Vec<Clause>,
     clock: u64,
     log: Vec<String>,
-    ambiguous: bool,
+    /// the history left what the statement fixes (reason)
+    ambiguous: Option<&'static str>,
+    /// a `throw` op ran: everything is abandoned
+    thrown: bool,
     steps: u64,
-    /// open clause/2 cursors per predicate (for the deliberately weak clause/2 oracle)
     open_clause_cursors: [u32; 2],
+    /// open cursors that run through first-argument indexing: (predicate, index key)
+    open_indexed: Vec<(String, String)>,
+    /// a clause was added to / removed from the index bucket an open indexed cursor walks
+    index_hazard: bool,
+    /// index buckets (predicate, key) in which a clause has been retracted
+    bucket_retracted: Vec<(String, String)>,
+    /// asserta into a bucket after a retraction in that bucket (stale index entry defect)
+    dup_hazard: bool,
+    /// (log length, database text) after every writer step, for the fault configuration
+    states: Vec<(usize, String)>,
 }
 
-fn pred_mut<'a>(m: &'a mut Model, pred: &str) -> &'a mut Vec<Clause> {
+fn pred_ix(pred: &str) -> usize {
     if pred == "p" {
-        &mut m.p
+        0
     } else {
-        &mut m.q
+        1
     }
 }
 
-fn matches(pat: &[Option<String>], args: &[String]) -> bool {
-    pat.iter().zip(args.iter()).all(|(p, a)| p.as_ref().map(|p| p == a).unwrap_or(true))
+impl Model {
+    fn pred(&mut self, pred: &str) -> &mut Vec<Clause> {
+        if pred == "p" {
+            &mut self.p
+        } else {
+            &mut self.q
+        }
+    }
+
+    fn visible(&self, pred: &str, now: u64) -> Vec<(usize, Clause)> {
+        let v = if pred == "p" { &self.p } else { &self.q };
+        v.iter().enumerate().filter(|(_, c)| c.birth <= now && c.death > now).map(|(i, c)| (i, c.clone())).collect()
+    }
+
+    fn db_text(&self) -> String {
+        let now = self.clock;
+        let f = |v: &Vec<Clause>| -> String {
+            v.iter()
+                .filter(|c| c.birth <= now && c.death > now)
+                .map(|c| match &c.body {
+                    None => c.args.join("-"),
+                    Some(b) => format!("{}:-{}", c.args.join("-"), pat_text(b)),
+                })
+                .collect::<Vec<_>>()
+                .join(",")
+        };
+        format!("p[{}] q[{}]", f(&self.p), f(&self.q))
+    }
+
+    fn note_state(&mut self) {
+        let t = self.db_text();
+        self.states.push((self.log.len(), t));
+    }
+
+    fn stop(&self) -> bool {
+        self.ambiguous.is_some() || self.thrown
+    }
 }
 
-fn pat_of(op: &Value) -> Vec<Option<String>> {
-    op["args"].as_array().map(|a| a.iter().map(|x| x.as_str().map(|s| s.to_string())).collect()).unwrap_or_default()
+/// first-argument index key of a ground value or of a call pattern (None: unbound, not indexed)
+fn index_key(a: Option<&str>) -> Option<String> {
+    let a = a?;
+    if a.starts_with("f(") {
+        Some("f/1".into())
+    } else if a.starts_with("g(") {
+        Some("g/1".into())
+    } else if a.starts_with('[') {
+        Some("list".into())
+    } else {
+        Some(a.to_string())
+    }
+}
+
+impl Model {
+    /// a writer touches a clause whose first argument is `first`
+    fn writer_touches(&mut self, pred: &str, first: &str) {
+        let k = index_key(Some(first)).unwrap();
+        if self.open_indexed.iter().any(|(p, key)| p == pred && *key == k) {
+            self.index_hazard = true;
+        }
+    }
+
+    fn note_retraction(&mut self, pred: &str, first: &str) {
+        let k = index_key(Some(first)).unwrap();
+        if !self.bucket_retracted.iter().any(|(p, key)| p == pred && *key == k) {
+            self.bucket_retracted.push((pred.to_string(), k));
+        }
+    }
+
+    fn note_asserta(&mut self, pred: &str, first: &str) {
+        let k = index_key(Some(first)).unwrap();
+        if self.bucket_retracted.iter().any(|(p, key)| p == pred && *key == k) {
+            self.dup_hazard = true;
+        }
+    }
+}
+
+fn pat_text(p: &[Option<String>]) -> String {
+    p.iter().map(|x| x.clone().unwrap_or_else(|| "_".into())).collect::<Vec<_>>().join("-")
+}
+
+fn matches(pat: &[Option<String>], args: &[String]) -> bool {
+    pat.iter().zip(args.iter()).all(|(p, a)| match p.as_deref() {
+        None => true,
+        Some("f(_)") => a.starts_with("f("),
+        Some(p) => p == a,
+    })
+}
+
+fn pat_of(v: &Value) -> Vec<Option<String>> {
+    v.as_array().map(|a| a.iter().map(|x| x.as_str().map(|s| s.to_string())).collect()).unwrap_or_default()
+}
+
+/// Solutions of a call of `pred` with `pat` started now: the snapshot of matching clauses; a
+/// p-rule runs its body (a call of q started when the body is entered). `k` is invoked once per
+/// solution with the instantiated arguments, in order.
+fn solve(m: &mut Model, pred: &str, pat: &[Option<String>], k: &mut dyn FnMut(&mut Model, &[String])) {
+    let now = m.clock;
+    let snap: Vec<Clause> = m.visible(pred, now).into_iter().map(|(_, c)| c).filter(|c| matches(pat, &c.args)).collect();
+    let outer_key = index_key(pat.first().and_then(|x| x.as_deref()));
+    if let Some(key) = &outer_key {
+        m.open_indexed.push((pred.to_string(), key.clone()));
+    }
+    'outer: for c in snap {
+        match &c.body {
+            None => k(m, &c.args),
+            Some(bpat) => {
+                let now2 = m.clock;
+                let inner: Vec<Clause> = m.visible("q", now2).into_iter().map(|(_, c)| c).filter(|c2| matches(bpat, &c2.args)).collect();
+                let inner_key = index_key(bpat.first().and_then(|x| x.as_deref()));
+                if let Some(key) = &inner_key {
+                    m.open_indexed.push(("q".to_string(), key.clone()));
+                }
+                for _c2 in inner {
+                    k(m, &c.args);
+                    if m.stop() {
+                        break;
+                    }
+                }
+                if inner_key.is_some() {
+                    m.open_indexed.pop();
+                }
+            }
+        }
+        if m.stop() {
+            break 'outer;
+        }
+    }
+    if outer_key.is_some() {
+        m.open_indexed.pop();
+    }
 }
 
 /// Reference interpreter: run ops[k..] as a conjunction followed by `fail`.
 fn run(m: &mut Model, ops: &[Value], k: usize) {
     m.steps += 1;
-    if m.ambiguous || m.steps > 200_000 || m.log.len() > 2_000 {
-        m.ambiguous = true;
+    if m.stop() {
+        return;
+    }
+    if m.steps > 100_000 || m.log.len() > 400 {
+        m.ambiguous = Some("too-long");
         return;
     }
     if k == ops.len() {
@@ -76,123 +227,152 @@ fn run(m: &mut Model, ops: &[Value], k: usize) {
     }
     let op = &ops[k];
     let pred = op["pred"].as_str().unwrap_or("p").to_string();
-    let pi = if pred == "p" { 0 } else { 1 };
-    let pat = pat_of(op);
+    let pi = pred_ix(&pred);
+    let pat = pat_of(&op["args"]);
     let id = k;
     match op["op"].as_str().unwrap_or("") {
-        "assertz" | "asserta" => {
+        "assertz" | "asserta" | "assertz_rule" | "asserta_rule" => {
             m.clock += 1;
-            let c = Clause { args: pat.iter().map(|x| x.clone().unwrap()).collect(), birth: m.clock, death: u64::MAX };
+            let body = if op["op"].as_str().unwrap().ends_with("_rule") { Some(pat_of(&op["body"])) } else { None };
+            let c = Clause { args: pat.iter().map(|x| x.clone().unwrap()).collect(), body, birth: m.clock, death: u64::MAX };
+            let first = c.args[0].clone();
+            m.writer_touches(&pred, &first);
             if m.open_clause_cursors[pi] > 0 {
-                m.ambiguous = true;
+                m.ambiguous = Some("clause-cursor");
             }
-            let front = op["op"] == "asserta";
-            let v = pred_mut(m, &pred);
+            let front = op["op"].as_str().unwrap().starts_with("asserta");
+            if front {
+                m.note_asserta(&pred, &first);
+            }
+            let v = m.pred(&pred);
             if front {
                 v.insert(0, c);
             } else {
                 v.push(c);
             }
+            m.note_state();
             run(m, ops, k + 1);
         }
         "retract_once" => {
+            // retract(p(..)) only matches facts (body `true`)
             let now = m.clock;
-            let idx = pred_mut(m, &pred).iter().position(|c| c.birth <= now && c.death > now && matches(&pat, &c.args));
+            let idx = m.visible(&pred, now).into_iter().find(|(_, c)| c.body.is_none() && matches(&pat, &c.args)).map(|(i, _)| i);
             if let Some(i) = idx {
                 m.clock += 1;
                 let t = m.clock;
-                pred_mut(m, &pred)[i].death = t;
+                m.pred(&pred)[i].death = t;
+                let first = m.pred(&pred)[i].args[0].clone();
+                m.writer_touches(&pred, &first);
+                m.note_retraction(&pred, &first);
                 if m.open_clause_cursors[pi] > 0 {
-                    m.ambiguous = true;
+                    m.ambiguous = Some("clause-cursor");
                 }
+                m.note_state();
             }
             run(m, ops, k + 1);
         }
-        "retractall" => {
+        "retractall" | "abolish" => {
             let now = m.clock;
-            let any = pred_mut(m, &pred).iter().any(|c| c.birth <= now && c.death > now && matches(&pat, &c.args));
-            if any {
+            let all = op["op"] == "abolish";
+            let victims: Vec<usize> = m.visible(&pred, now).into_iter().filter(|(_, c)| all || matches(&pat, &c.args)).map(|(i, _)| i).collect();
+            if !victims.is_empty() {
                 m.clock += 1;
                 let t = m.clock;
-                for c in pred_mut(m, &pred).iter_mut() {
-                    if c.birth <= now && c.death > now && matches(&pat, &c.args) {
-                        c.death = t;
-                    }
+                for i in victims {
+                    m.pred(&pred)[i].death = t;
+                    let first = m.pred(&pred)[i].args[0].clone();
+                    m.writer_touches(&pred, &first);
+                    m.note_retraction(&pred, &first);
+                    // retractall/1 and abolish/1 are loops over single retractions: an
+                    // interrupt may land between two of them
+                    m.note_state();
                 }
                 if m.open_clause_cursors[pi] > 0 {
-                    m.ambiguous = true;
+                    m.ambiguous = Some("clause-cursor");
                 }
+                m.note_state();
             }
             run(m, ops, k + 1);
         }
-        "call" | "clause" => {
-            let now = m.clock;
-            // snapshot: the clauses that exist when the call starts
-            let snap: Vec<Vec<String>> = pred_mut(m, &pred).iter().filter(|c| c.birth <= now && c.death > now && matches(&pat, &c.args)).map(|c| c.args.clone()).collect();
-            let is_clause = op["op"] == "clause";
-            if is_clause {
-                m.open_clause_cursors[pi] += 1;
-            }
-            for args in snap {
-                m.log.push(format!("{}({},{})", if is_clause { "k" } else { "c" }, id, args.join(",")));
+        "call" => {
+            let mut cont = |m: &mut Model, args: &[String]| {
+                m.log.push(format!("c({},{})", id, args.join(",")));
                 run(m, ops, k + 1);
-                if m.ambiguous {
+            };
+            solve(m, &pred, &pat, &mut cont);
+        }
+        "clause" => {
+            // clause(Head, true): facts only; the statement gives a resumed clause/2 cursor no
+            // snapshot guarantee, so a history that modifies the predicate under it is left
+            m.open_clause_cursors[pi] += 1;
+            let now = m.clock;
+            let snap: Vec<Clause> = m.visible(&pred, now).into_iter().map(|(_, c)| c).filter(|c| c.body.is_none() && matches(&pat, &c.args)).collect();
+            for c in snap {
+                m.log.push(format!("k({},{})", id, c.args.join(",")));
+                run(m, ops, k + 1);
+                if m.stop() {
                     break;
                 }
             }
-            if is_clause {
-                m.open_clause_cursors[pi] -= 1;
-            }
+            m.open_clause_cursors[pi] -= 1;
         }
         "retract" => {
             let now = m.clock;
-            let snap: Vec<(usize, Vec<String>)> = pred_mut(m, &pred)
-                .iter()
-                .enumerate()
-                .filter(|(_, c)| c.birth <= now && c.death > now && matches(&pat, &c.args))
-                .map(|(i, c)| (i, c.args.clone()))
-                .collect();
-            // clause positions shift when asserta inserts at the front: address by birth stamp
-            let births: Vec<u64> = snap.iter().map(|(i, _)| pred_mut(m, &pred)[*i].birth).collect();
-            for ((_, args), birth) in snap.into_iter().zip(births) {
-                let pos = pred_mut(m, &pred).iter().position(|c| c.birth == birth && c.args == args);
-                let alive = pos.map(|p| pred_mut(m, &pred)[p].death == u64::MAX).unwrap_or(false);
+            let snap: Vec<Clause> = m.visible(&pred, now).into_iter().map(|(_, c)| c).filter(|c| c.body.is_none() && matches(&pat, &c.args)).collect();
+            for c in snap {
+                let pos = m.pred(&pred).iter().position(|x| x.birth == c.birth);
+                let alive = pos.map(|p| m.pred(&pred)[p].death == u64::MAX).unwrap_or(false);
                 if !alive {
                     // a clause of this cursor's snapshot was removed by someone else meanwhile:
                     // the statement does not say what a re-entrant retract does then
-                    m.ambiguous = true;
+                    m.ambiguous = Some("retract-meets-removed-clause");
                     return;
                 }
                 m.clock += 1;
                 let t = m.clock;
                 let p = pos.unwrap();
-                pred_mut(m, &pred)[p].death = t;
+                m.pred(&pred)[p].death = t;
+                let first = m.pred(&pred)[p].args[0].clone();
+                m.writer_touches(&pred, &first);
+                m.note_retraction(&pred, &first);
                 if m.open_clause_cursors[pi] > 0 {
-                    m.ambiguous = true;
+                    m.ambiguous = Some("clause-cursor");
                     return;
                 }
-                m.log.push(format!("r({},{})", id, args.join(",")));
+                m.note_state();
+                m.log.push(format!("r({},{})", id, c.args.join(",")));
                 run(m, ops, k + 1);
-                if m.ambiguous {
+                if m.stop() {
                     return;
                 }
             }
         }
         "once" => {
-            let now = m.clock;
-            let first = pred_mut(m, &pred).iter().find(|c| c.birth <= now && c.death > now && matches(&pat, &c.args)).map(|c| c.args.clone());
+            let mut first: Option<Vec<String>> = None;
+            let mut cont = |_m: &mut Model, args: &[String]| {
+                if first.is_none() {
+                    first = Some(args.to_vec());
+                }
+            };
+            solve(m, &pred, &pat, &mut cont);
             if let Some(args) = first {
                 m.log.push(format!("o({},{})", id, args.join(",")));
                 run(m, ops, k + 1);
             }
         }
         "not" => {
-            let now = m.clock;
-            let any = pred_mut(m, &pred).iter().any(|c| c.birth <= now && c.death > now && matches(&pat, &c.args));
+            let mut any = false;
+            let mut cont = |_m: &mut Model, _args: &[String]| {
+                any = true;
+            };
+            solve(m, &pred, &pat, &mut cont);
             if !any {
                 m.log.push(format!("n({})", id));
                 run(m, ops, k + 1);
             }
+        }
+        "throw" => {
+            m.thrown = true;
         }
         _ => run(m, ops, k + 1),
     }
@@ -202,28 +382,38 @@ fn head_text(pred: &str, pat: &[Option<String>], id: usize) -> (String, String) 
     // (head with fresh variables for unbound positions, comma list of the argument terms)
     let mut args = vec![];
     for (j, a) in pat.iter().enumerate() {
-        match a {
-            Some(v) => args.push(v.clone()),
+        match a.as_deref() {
+            Some("f(_)") => args.push(format!("f(V{}_{})", id, j)),
+            Some(v) => args.push(v.to_string()),
             None => args.push(format!("V{}_{}", id, j)),
         }
     }
     (format!("{}({})", pred, args.join(",")), args.join(","))
 }
 
-fn goal_text(op: &Value, id: usize) -> String {
+fn goal_text(op: &Value, id: usize, guard: bool) -> String {
     let pred = op["pred"].as_str().unwrap_or("p");
-    let pat = pat_of(op);
+    let pat = pat_of(&op["args"]);
     let (head, args) = head_text(pred, &pat, id);
+    // after abolish/1 a call may fail or raise existence_error: both "see no clauses"
+    let call = if guard { format!("c09_call({head})") } else { head.clone() };
     match op["op"].as_str().unwrap_or("") {
         "assertz" => format!("assertz({head})"),
         "asserta" => format!("asserta({head})"),
+        "assertz_rule" | "asserta_rule" => {
+            let (bhead, _) = head_text("q", &pat_of(&op["body"]), 100 + id);
+            let b = if guard { format!("c09_call({bhead})") } else { bhead };
+            format!("{}(({head} :- {b}))", if op["op"] == "assertz_rule" { "assertz" } else { "asserta" })
+        }
         "retract_once" => format!("( retract({head}) -> true ; true )"),
         "retractall" => format!("retractall({head})"),
-        "call" => format!("{head}, c09_log(c({id},{args}))"),
+        "abolish" => format!("abolish({}/{})", pred, pat.len()),
+        "call" => format!("{call}, c09_log(c({id},{args}))"),
         "clause" => format!("clause({head}, true), c09_log(k({id},{args}))"),
         "retract" => format!("retract({head}), c09_log(r({id},{args}))"),
-        "once" => format!("once({head}), c09_log(o({id},{args}))"),
-        "not" => format!("\\+ {head}, c09_log(n({id}))"),
+        "once" => format!("once({call}), c09_log(o({id},{args}))"),
+        "not" => format!("\\+ {call}, c09_log(n({id}))"),
+        "throw" => "throw(c09_ball)".to_string(),
         _ => "true".into(),
     }
 }
@@ -231,7 +421,17 @@ fn goal_text(op: &Value, id: usize) -> String {
 fn gen_pat(rng: &mut Prng, pred: &str, bound_all: bool) -> Vec<Value> {
     let n = if pred == "p" { 1 } else { 2 };
     (0..n)
-        .map(|_| if bound_all || rng.chance(1, 3) { json!(*rng.pick(VALS)) } else { Value::Null })
+        .map(|_| {
+            if bound_all {
+                json!(*rng.pick(VALS))
+            } else {
+                match rng.below(10) {
+                    0..=2 => json!(*rng.pick(VALS)),
+                    3 => json!("f(_)"),
+                    _ => Value::Null,
+                }
+            }
+        })
         .collect()
 }
 
@@ -242,8 +442,8 @@ impl Check for C09 {
 
     fn runs(&self, tier: Tier) -> u64 {
         match tier {
-            Tier::Quick => 16_000,
-            Tier::Thorough => 2_000_000,
+            Tier::Quick => 12_000,
+            Tier::Thorough => 3_000_000,
         }
     }
 
@@ -261,124 +461,88 @@ impl Check for C09 {
 
     fn gen(&mut self, rng: &mut Prng, _idx: u64, _tier: Tier) -> Value {
         let mut init = vec![];
-        for _ in 0..rng.range(0, 5) {
+        for _ in 0..rng.range(0, 6) {
             let pred = if rng.chance(2, 3) { "p" } else { "q" };
-            init.push(json!({"op": "assertz", "pred": pred, "args": gen_pat(rng, pred, true)}));
+            if pred == "p" && rng.chance(1, 8) {
+                init.push(json!({"op": "assertz_rule", "pred": "p", "args": gen_pat(rng, "p", true), "body": gen_pat(rng, "q", false)}));
+            } else {
+                init.push(json!({"op": "assertz", "pred": pred, "args": gen_pat(rng, pred, true)}));
+            }
         }
         let n = rng.range(1, 8);
         let mut ops = vec![];
-        let with_clause = rng.chance(1, 4);
+        // swarm: per-run feature subset
+        let with_clause = rng.chance(1, 5);
+        let with_rules = rng.chance(1, 3);
+        let with_abolish = rng.chance(1, 6);
+        let with_throw = rng.chance(1, 10);
         for _ in 0..n {
             let pred = if rng.chance(2, 3) { "p" } else { "q" };
             let r = rng.below(100);
-            let (op, bound) = if r < 28 {
+            let (op, bound) = if r < 26 {
                 ("call", false)
-            } else if r < 36 {
+            } else if r < 34 {
                 (if with_clause { "clause" } else { "call" }, false)
-            } else if r < 46 {
+            } else if r < 44 {
                 ("retract", false)
-            } else if r < 52 {
+            } else if r < 50 {
                 ("once", false)
-            } else if r < 57 {
+            } else if r < 55 {
                 ("not", false)
-            } else if r < 72 {
+            } else if r < 68 {
                 ("assertz", true)
-            } else if r < 82 {
+            } else if r < 77 {
                 ("asserta", true)
-            } else if r < 92 {
+            } else if r < 82 {
+                (
+                    if with_rules {
+                        if rng.chance(1, 2) {
+                            "assertz_rule"
+                        } else {
+                            "asserta_rule"
+                        }
+                    } else {
+                        "assertz"
+                    },
+                    true,
+                )
+            } else if r < 91 {
                 ("retract_once", false)
-            } else {
+            } else if r < 96 {
                 ("retractall", false)
+            } else if r < 98 {
+                (if with_abolish { "abolish" } else { "retractall" }, false)
+            } else {
+                (if with_throw { "throw" } else { "call" }, false)
             };
-            ops.push(json!({"op": op, "pred": pred, "args": gen_pat(rng, pred, bound)}));
+            let mut o = json!({"op": op, "pred": pred, "args": gen_pat(rng, pred, bound)});
+            if op.ends_with("_rule") {
+                o["pred"] = json!("p");
+                o["args"] = json!(gen_pat(rng, "p", true));
+                o["body"] = json!(gen_pat(rng, "q", false));
+            }
+            ops.push(o);
         }
-        json!({"init": init, "ops": ops})
+        // fault configuration: an interrupt somewhere in the history (1 run in 4)
+        let interrupt_at = if rng.chance(1, 4) { rng.range(1, 40_000) } else { 0 };
+        json!({"init": init, "ops": ops, "interrupt_at": interrupt_at})
     }
 
     fn exec(&mut self, case: &Value) -> Outcome {
-        let mut out = Outcome::default();
-        let mut m = match self.m.take() {
-            Some(m) if m.alive() => m,
-            _ => Mach::new(),
-        };
-        let init = case["init"].as_array().cloned().unwrap_or_default();
-        let ops = case["ops"].as_array().cloned().unwrap_or_default();
-
-        // model
-        let mut model = Model::default();
-        run(&mut model, &init, 0); // init ops are writers only: runs them once, then "fails"
-        model.log.clear();
-        run(&mut model, &ops, 0);
-        let now = model.clock;
-        let want_p: Vec<String> = model.p.iter().filter(|c| c.birth <= now && c.death > now).map(|c| c.args.join(",")).collect();
-        let want_q: Vec<String> = model.q.iter().filter(|c| c.birth <= now && c.death > now).map(|c| c.args.join("-")).collect();
-
-        // implementation
-        let setup: Vec<String> = init.iter().enumerate().map(|(i, o)| goal_text(o, i)).collect();
-        let q0 = format!("retractall(p(_)), retractall(q(_,_)), retractall(c09_l(_)){}{}.", if setup.is_empty() { "" } else { ", " }, setup.join(", "));
-        let r0 = m.all(&q0);
-        if let Some(p) = &r0.panic {
-            out.violate("panic", panic_key(p), format!("setup `{q0}`: {p}"));
-            return out;
-        }
-        let goals: Vec<String> = ops.iter().enumerate().map(|(i, o)| goal_text(o, i)).collect();
-        let q = format!("catch(( {}, fail ; true ), E, true), findall(T, c09_l(T), Log), findall(X, p(X), P), findall(K-X, q(K, X), Q).", goals.join(", "));
-        let t0 = vh::ticks();
-        vh::set_tick_budget(t0 + 30_000_000);
-        let r = m.all(&q);
-        vh::set_tick_budget(u64::MAX);
-        out.bump("sim_ticks", vh::ticks() - t0);
-        let mut h = 0xcbf29ce484222325u64;
-        hash_bytes(&mut h, q0.as_bytes());
-        hash_bytes(&mut h, q.as_bytes());
-        hash_bytes(&mut h, r.text().as_bytes());
-        out.hash = h;
-        out.transcript = format!("{q0}\n{q}\n => {}", r.text());
-        out.nontrivial = model.log.len() > 1 && ops.iter().any(|o| matches!(o["op"].as_str(), Some("assertz" | "asserta" | "retract" | "retract_once" | "retractall")));
-        out.bump("model_log_entries", model.log.len() as u64);
-        if model.ambiguous {
-            out.bump("histories_outside_the_statement", 1);
-        }
-
-        if let Some(p) = &r.panic {
-            let class = if p.contains("TickBudgetExceeded") { "hang" } else { "panic" };
-            out.violate(class, panic_key(p), format!("`{q}` after `{q0}`: {p}"));
-            return out;
-        }
-        let b = match r.items.first() {
-            Some(Ans::Bind(b)) => b.clone(),
-            _ => {
-                out.violate("wrong-outcome", "no-answer", format!("`{q}` gave [{}]", r.text()));
-                self.m = Some(m);
-                return out;
+        let mut hazard = 0u8;
+        let mut out = self.exec_inner(case, &mut hazard);
+        if hazard != 0 {
+            // 1: the history adds or removes a clause in the index bucket an open first-argument-
+            // indexed cursor is walking; 2: it does asserta into an index bucket in which a clause
+            // was retracted before. Violations in such histories are keyed apart (known findings).
+            let pre = if hazard == 1 { "indexed-cursor-modified" } else { "asserta-into-bucket-after-retract" };
+            for v in out.violations.iter_mut() {
+                if !v.key.starts_with("with-open-clause-cursor:") {
+                    v.key = format!("{pre}:{}", v.key.split(':').next().unwrap_or(""));
+                }
             }
-        };
-        let parts = super::c40::split_top(&b, ';');
-        let get = |name: &str| parts.iter().find_map(|p| p.strip_prefix(&format!("{}=", name)).map(|x| x.to_string()));
-        if let Some(e) = get("E") {
-            out.violate("unexpected-exception", format!("exception:{}", e.chars().take(60).collect::<String>()), format!("`{q}` after `{q0}` threw {e}"));
-            self.m = Some(m);
-            return out;
+            out.bump(&format!("histories_with_hazard.{pre}"), 1);
         }
-        if !model.ambiguous {
-            let canon = |s: &str| -> String { s.replace('"', "").replace("s[", "[") };
-            let got_log = canon(&get("Log").unwrap_or_default());
-            let want_log = format!("[{}]", model.log.join(","));
-            let got_p = canon(&get("P").unwrap_or_default());
-            let got_q = canon(&get("Q").unwrap_or_default());
-            let want_p = format!("[{}]", want_p.join(","));
-            let want_q = format!("[{}]", want_q.iter().map(|x| format!("-({})", x.replace('-', ","))).collect::<Vec<_>>().join(","));
-            let got_log = unstring(&got_log);
-            let got_p = unstring(&got_p);
-            if got_log != want_log {
-                out.violate("wrong-view", "log-differs", format!("setup `{q0}`\n goal `{q}`\n answers logged {got_log}\n the logical update view gives {want_log}"));
-            } else if got_p != want_p || got_q != want_q {
-                out.violate("wrong-database", "final-database-differs", format!("setup `{q0}`\n goal `{q}`\n final p {got_p} q {got_q}; model p {want_p} q {want_q}"));
-            } else {
-                out.bump("histories_checked_against_model", 1);
-            }
-        }
-        self.m = Some(m);
         out
     }
 
@@ -386,37 +550,319 @@ impl Check for C09 {
         let mut out = vec![];
         let ops = case["ops"].as_array().cloned().unwrap_or_default();
         let init = case["init"].as_array().cloned().unwrap_or_default();
+        let ia = case["interrupt_at"].clone();
         for o2 in super::shrink_list(&ops) {
-            out.push(json!({"init": init, "ops": o2}));
+            out.push(json!({"init": init, "ops": o2, "interrupt_at": ia}));
         }
         for i2 in super::shrink_list(&init) {
-            out.push(json!({"init": i2, "ops": ops}));
+            out.push(json!({"init": i2, "ops": ops, "interrupt_at": ia}));
         }
         if !init.is_empty() {
-            out.push(json!({"init": [], "ops": ops}));
+            out.push(json!({"init": [], "ops": ops, "interrupt_at": ia}));
+        }
+        if ia.as_u64().unwrap_or(0) > 0 {
+            out.push(json!({"init": init, "ops": ops, "interrupt_at": 0}));
+        }
+        // simpler arguments
+        for (i, o) in ops.iter().enumerate() {
+            if let Some(args) = o["args"].as_array() {
+                for (j, a) in args.iter().enumerate() {
+                    if a.as_str().map(|s| s != "va" && s != "f(_)").unwrap_or(false) {
+                        let mut o2 = ops.clone();
+                        o2[i]["args"][j] = json!("va");
+                        out.push(json!({"init": init, "ops": o2, "interrupt_at": ia}));
+                    }
+                }
+            }
         }
         out
     }
 
     fn describe(&self) -> Value {
         json!({
-            "real": ["whole Machine: dynamic predicate calls (indexed and unindexed), clause/2, retract/1, assertz/asserta/retractall, generation stamps and clock (compile.rs, dispatch.rs)"],
-            "stub": ["scheduler of cursors and writers (an interleaving is realised as one conjunction whose choice points are resumed LIFO by backtracking)"],
-            "rule": "<=5 initial facts over p/1 and q/2 (4 values) x <=8 operations (calls with bound/unbound arguments, clause/2, re-entrant retract/1, once/1, \\+, assertz, asserta, retract-once, retractall) run as `op1,...,opn,fail`; distinct = hash of setup, goal and answer; non-trivial = at least one writer ran and more than one cursor answer was logged",
-            "assumptions": ["histories in which a re-entrant retract/1 meets a clause of its snapshot that someone else removed, or in which a clause/2 cursor is open while its predicate is modified, are outside what the statement fixes: only 'no crash, no exception' is asserted for them"],
+            "real": ["whole Machine: dynamic predicate calls (unindexed, constant-, structure- and list-indexed), rule bodies calling a second dynamic predicate, clause/2, retract/1, assertz/asserta/retractall/abolish, generation stamps and clock (compile.rs, dispatch.rs)", "interrupt delivery (check_for_interrupt, throw, unwind) in the fault configuration"],
+            "stub": ["scheduler of cursors and writers (an interleaving is realised as one conjunction whose choice points are resumed LIFO by backtracking)", "interrupt source (instruction clock)"],
+            "rule": "<=6 initial clauses over p/1 and q/2 (8 ground values: atoms, f/1 and g/1 structures, an integer, a list; p-rules whose body calls q) x <=8 operations (calls with bound / partially bound f(_) / unbound arguments, clause/2, re-entrant retract/1, once/1, \\+, assertz, asserta, rule assertion, retract-once, retractall, abolish, throw) run as `op1,...,opn,fail`; per-run feature subset (swarm); 1 run in 4 injects an interrupt at a seeded instruction; distinct = hash of setup, goal, fault position and answer; non-trivial = the interrupt fired, or at least one writer ran and more than one cursor answer was logged",
+            "assumptions": [
+                "histories in which a re-entrant retract/1 meets a clause of its snapshot that someone else removed, or in which a clause/2 cursor is open while its predicate is modified, are outside what the statement fixes: only 'no crash' is asserted for them (and, for a modified clause/2 cursor, not even termination: a cursor that sees the database as modified may follow the clauses the history keeps adding)",
+                "after abolish/1 a call may fail or raise existence_error (both 'see no clauses'): calls are wrapped accordingly in histories that contain abolish",
+                "after an injected interrupt only: log is a prefix of the model log and the database is a state the model passes through at that log length"
+            ],
         })
     }
 }
 
-/// single-character atom lists print as s"..." strings; expand them back to lists
-fn unstring(s: &str) -> String {
-    // after quote stripping a string looks like sabc (prefix s + chars) only at list-element
-    // level for P = [a,b] -> sab. Handle the whole-value case.
-    if let Some(rest) = s.strip_prefix('s') {
-        if !rest.starts_with('[') && !rest.is_empty() {
-            let items: Vec<String> = rest.chars().map(|c| c.to_string()).collect();
-            return format!("[{}]", items.join(","));
+impl C09 {
+    fn exec_inner(&mut self, case: &Value, hazard: &mut u8) -> Outcome {
+        let mut out = Outcome::default();
+        let mut m = match self.m.take() {
+            Some(m) if m.alive() => m,
+            _ => Mach::new(),
+        };
+        let init = case["init"].as_array().cloned().unwrap_or_default();
+        let ops = case["ops"].as_array().cloned().unwrap_or_default();
+        let interrupt_at = case["interrupt_at"].as_u64().unwrap_or(0);
+        let guard = init.iter().chain(ops.iter()).any(|o| o["op"] == "abolish");
+
+        // model
+        let mut model = Model::default();
+        run(&mut model, &init, 0); // init ops are writers only: runs them once, then "fails"
+        model.log.clear();
+        model.states.clear();
+        model.steps = 0;
+        model.note_state();
+        run(&mut model, &ops, 0);
+        *hazard = if model.index_hazard { 1 } else if model.dup_hazard { 2 } else { 0 };
+        let want_db = model.db_text();
+
+        // implementation
+        let setup: Vec<String> = init.iter().enumerate().map(|(i, o)| goal_text(o, i, guard)).collect();
+        let q0 = format!(
+            "abolish(p/1), abolish(q/2), assertz(p(c09_tmp)), assertz(q(c09_tmp,c09_tmp)), retractall(p(_)), retractall(q(_,_)), retractall(c09_l(_)){}{}.",
+            if setup.is_empty() { "" } else { ", " },
+            setup.join(", ")
+        );
+        let r0 = m.all(&q0);
+        if let Some(p) = &r0.panic {
+            out.violate("panic", panic_key(p), format!("setup `{q0}`: {p}"));
+            return out;
+        }
+        let goals: Vec<String> = ops.iter().enumerate().map(|(i, o)| goal_text(o, i, guard)).collect();
+        let q = format!("catch(( {}, fail ; true ), E, true).", goals.join(", "));
+        let t0 = vh::ticks();
+        vh::set_tick_budget(t0 + 8_000_000);
+        vh::set_p_trace(true);
+        let r = m.run_with(&q, usize::MAX, |k| {
+            if k == 0 && interrupt_at > 0 {
+                vh::interrupt_at(vh::ticks() + interrupt_at);
+            }
+        });
+        let fired = interrupt_at > 0 && vh::interrupt_fired_at() != 0;
+        vh::interrupt_at(0);
+        vh::clear_global_interrupt();
+        vh::set_tick_budget(u64::MAX);
+        out.bump("sim_ticks", vh::ticks() - t0);
+        let mut h = 0xcbf29ce484222325u64;
+        hash_bytes(&mut h, q0.as_bytes());
+        hash_bytes(&mut h, q.as_bytes());
+        hash_bytes(&mut h, &interrupt_at.to_le_bytes());
+        hash_bytes(&mut h, r.text().as_bytes());
+        out.hash = h;
+        out.transcript = format!("{q0}\n{q}\n => {}", r.text());
+        let writers = ops.iter().any(|o| matches!(o["op"].as_str(), Some("assertz" | "asserta" | "assertz_rule" | "asserta_rule" | "retract" | "retract_once" | "retractall" | "abolish")));
+        out.nontrivial = fired || (model.log.len() > 1 && writers);
+        out.bump("model_log_entries", model.log.len() as u64);
+        if fired {
+            out.bump("fault.interrupt_fired", 1);
+        }
+        if let Some(why) = model.ambiguous {
+            out.bump(&format!("histories_outside_the_statement.{why}"), 1);
+        }
+        let ctx = format!("setup `{q0}`\n goal `{q}`{}", if fired { format!("\n interrupt injected at instruction {interrupt_at}") } else { String::new() });
+
+        if let Some(p) = &r.panic {
+            let pre = if model.ambiguous == Some("clause-cursor") { "with-open-clause-cursor:" } else { "" };
+            if p.contains("TickBudgetExceeded") {
+                if model.ambiguous.is_some() {
+                    // the model gave up on this history (too long for its bounds, or outside the
+                    // statement), so it has no bound on its length; in particular a clause/2 cursor that "sees the database as modified" may legitimately keep
+                    // finding the clauses the history keeps adding
+                    out.bump("unbounded_histories_stopped_by_budget", 1);
+                } else {
+                    let (site, d) = m.hang_site().unwrap_or_default();
+                    out.violate("hang", format!("hang-in:{site}"), format!("{ctx}\n does not terminate (8M instructions); last instructions:{d}"));
+                }
+            } else {
+                out.violate("panic", format!("{pre}{}", panic_key(p)), format!("{ctx}: {p}"));
+            }
+            vh::set_p_trace(false);
+            return out;
+        }
+        vh::set_p_trace(false);
+
+        // outcome of the history goal
+        let e_text = match r.items.first() {
+            Some(Ans::True) => None,
+            // the interrupt struck before the goal's catch/3 was installed or after it was left
+            Some(Ans::Err(e)) | Some(Ans::Exc(e)) if fired && e.contains("$interrupt_thrown") => Some(e.replace('"', "")),
+            Some(Ans::Bind(b)) => super::c40::split_top(b, ';').iter().find_map(|p| p.strip_prefix("E=").map(|x| x.replace('"', ""))),
+            _ => {
+                out.violate("wrong-outcome", "no-answer", format!("{ctx}\n gave [{}]", r.text()));
+                self.m = Some(m);
+                return out;
+            }
+        };
+        let e_is_var = e_text.as_deref().map(|e| e.starts_with('_')).unwrap_or(true);
+
+        // observe log and database with fresh calls
+        let q2 = "findall(T, c09_l(T), Log), findall(X-B, clause(p(X), B), P), findall(K-X-B, clause(q(K, X), B), Q).";
+        let r2 = m.all(q2);
+        if let Some(p) = &r2.panic {
+            out.violate("panic", format!("after-history:{}", panic_key(p)), format!("{ctx}\n then `{q2}`: {p}"));
+            return out;
+        }
+        let b2 = match r2.items.first() {
+            Some(Ans::Bind(b)) => b.clone(),
+            _ => {
+                out.violate("wrong-outcome", "observation-failed", format!("{ctx}\n then `{q2}` gave [{}]", r2.text()));
+                self.m = Some(m);
+                return out;
+            }
+        };
+        let parts = super::c40::split_top(&b2, ';');
+        let get = |name: &str| parts.iter().find_map(|p| p.strip_prefix(&format!("{}=", name)).map(|x| x.replace('"', ""))).unwrap_or_default();
+        let got_log_items = list_items(&get("Log"));
+        let got_db = format!("p{} q{}", norm_db(&get("P"), 1), norm_db(&get("Q"), 2));
+
+        // a second observation through ordinary calls must agree with clause/2 ("later calls see
+        // the database as modified")
+        let q3 = if guard { "findall(X, c09_call(p(X)), P), findall(K-X, c09_call(q(K, X)), Q)." } else { "findall(X, p(X), P), findall(K-X, q(K, X), Q)." };
+        let r3 = m.all(q3);
+        if let Some(p) = &r3.panic {
+            out.violate("panic", format!("after-history:{}", panic_key(p)), format!("{ctx}\n then `{q3}`: {p}"));
+            return out;
+        }
+
+        if model.ambiguous.is_none() {
+            let interrupted = fired && e_text.as_deref().map(|e| e.contains("$interrupt_thrown")).unwrap_or(false);
+            if fired && !interrupted {
+                // the interrupt struck after the goal's last instruction, or a library catch-all
+                // swallowed it (C31's subject, not asserted here): the history ran to its end
+                // and the strict oracle below applies
+                out.bump("interrupt_not_delivered_to_goal", 1);
+            }
+            if interrupted {
+                // relaxed oracle after the injected interrupt
+                let n = got_log_items.len();
+                let is_prefix = n <= model.log.len() && got_log_items.iter().zip(model.log.iter()).all(|(a, b)| a == b);
+                if !is_prefix {
+                    out.violate("wrong-view", "log-not-a-prefix-after-interrupt", format!("{ctx}\n answers logged {:?}\n the logical update view gives {:?}", got_log_items, model.log));
+                } else {
+                    // states the model passes through around the moment its log has n entries
+                    // (a log entry is written after its answer and before the next writer)
+                    // allowed: every state recorded while the model's log had n entries, and the
+                    // state in force when it reached n entries (the last one recorded before)
+                    let mut ok = false;
+                    let mut last_lt: Option<&String> = None;
+                    for (l, db) in model.states.iter() {
+                        if *l < n {
+                            last_lt = Some(db);
+                        }
+                        if *l == n && *db == got_db {
+                            ok = true;
+                        }
+                    }
+                    if last_lt.map(|db| *db == got_db).unwrap_or(false) {
+                        ok = true;
+                    }
+                    if !ok {
+                        out.violate("wrong-database", "database-not-a-model-state-after-interrupt", format!("{ctx}\n log has {n} entries, database {got_db}\n model states {:?}", model.states));
+                    } else {
+                        out.bump("interrupted_histories_checked", 1);
+                    }
+                }
+                self.m = Some(m);
+                return out;
+            }
+            // strict oracle
+            if model.thrown {
+                if e_text.as_deref() != Some("c09_ball") {
+                    out.violate("wrong-outcome", "throw-not-caught", format!("{ctx}\n E = {:?}, expected the thrown ball", e_text));
+                }
+            } else if !e_is_var {
+                let e = e_text.clone().unwrap_or_default();
+                out.violate("unexpected-exception", format!("exception:{}", e.chars().take(60).collect::<String>()), format!("{ctx}\n threw {e}"));
+                self.m = Some(m);
+                return out;
+            }
+            if got_log_items != model.log {
+                out.violate("wrong-view", "log-differs", format!("{ctx}\n answers logged [{}]\n the logical update view gives [{}]", got_log_items.join(","), model.log.join(",")));
+            } else if got_db != want_db {
+                out.violate("wrong-database", "final-database-differs", format!("{ctx}\n final {got_db}\n model {want_db}"));
+            } else {
+                // calls agree with clause/2
+                let b3 = match r3.items.first() {
+                    Some(Ans::Bind(b)) => b.replace('"', ""),
+                    _ => String::new(),
+                };
+                if !want_db.contains(":-") {
+                    let parts3 = super::c40::split_top(&b3, ';');
+                    let get3 = |name: &str| parts3.iter().find_map(|p| p.strip_prefix(&format!("{}=", name)).map(|x| x.to_string())).unwrap_or_default();
+                    let p_calls = list_items(&get3("P")).join(",");
+                    let q_calls: Vec<String> = list_items(&get3("Q"))
+                        .iter()
+                        .map(|x| {
+                            let hp = super::c40::split_top(&strip_functor(x, "-"), ',');
+                            hp.iter().map(|s| s.trim().to_string()).collect::<Vec<_>>().join("-")
+                        })
+                        .collect();
+                    let calls_db = format!("p[{}] q[{}]", p_calls, q_calls.join(","));
+                    if calls_db != want_db {
+                        out.violate("wrong-database", "fresh-calls-differ", format!("{ctx}\n fresh calls enumerate {calls_db}\n model {want_db}"));
+                    }
+                }
+                out.bump("histories_checked_against_model", 1);
+            }
+        }
+        self.m = Some(m);
+        out
+    }
+
+}
+
+/// top-level items of a printed list `[a,b(c,d),e]`
+fn list_items(s: &str) -> Vec<String> {
+    let s = s.trim();
+    if s == "[]" || s.is_empty() {
+        return vec![];
+    }
+    let inner = s.strip_prefix('[').and_then(|x| x.strip_suffix(']')).unwrap_or(s);
+    super::c40::split_top(inner, ',').into_iter().map(|x| x.trim().to_string()).collect()
+}
+
+/// `-(a,b)` -> `a,b`
+fn strip_functor(s: &str, f: &str) -> String {
+    s.strip_prefix(&format!("{f}(")).and_then(|x| x.strip_suffix(')')).map(|x| x.to_string()).unwrap_or_else(|| s.to_string())
+}
+
+/// `[-(va,true), -(vb,q(_123,va))]` (arity 1) or `[-(-(k,v),true)]` (arity 2) -> model text
+fn norm_db(list: &str, arity: usize) -> String {
+    let mut out = vec![];
+    for item in list_items(list) {
+        let inner = strip_functor(&item, "-");
+        let parts = super::c40::split_top(&inner, ',');
+        if parts.len() != 2 {
+            out.push(item);
+            continue;
+        }
+        let head = if arity == 2 {
+            let hp = super::c40::split_top(&strip_functor(parts[0].trim(), "-"), ',');
+            hp.iter().map(|s| s.trim().to_string()).collect::<Vec<_>>().join("-")
+        } else {
+            parts[0].trim().to_string()
+        };
+        let body = parts[1].trim();
+        if body == "true" {
+            out.push(head);
+        } else {
+            // q(A,B) or c09_call(q(A,B)) -> pattern text with variables as _
+            let b = body.strip_prefix("c09_call(").and_then(|x| x.strip_suffix(')')).unwrap_or(body);
+            let b = strip_functor(b, "q");
+            let bp: Vec<String> = super::c40::split_top(&b, ',')
+                .into_iter()
+                .map(|x| {
+                    let x = x.trim();
+                    if x.starts_with('_') || x.chars().next().map(|c| c.is_ascii_uppercase()).unwrap_or(false) {
+                        "_".to_string()
+                    } else if x.starts_with("f(_") || x.starts_with("f(A") || (x.starts_with("f(") && x[2..].chars().next().map(|c| c.is_ascii_uppercase() || c == '_').unwrap_or(false)) {
+                        "f(_)".to_string()
+                    } else {
+                        x.to_string()
+                    }
+                })
+                .collect();
+            out.push(format!("{}:-{}", head, bp.join("-")));
         }
     }
-    s.to_string()
+    format!("[{}]", out.join(","))
 }
